@@ -4,7 +4,7 @@
 //!
 //! stdin: a list of scenarios
 //! ```text
-//! scenario <name> [preempt=P] [cap=N] [full_cap=N] [random=N] [pct=N] [seed=S] [max_steps=N] [replay=t,t,…] [trace=1]
+//! scenario <name> [preempt=P] [cap=N] [full_cap=N] [random=N] [pct=N] [seed=S] [max_steps=N] [replay=t,t,…] [trace=1] [lockgran=1]
 //! <protocol lines building the initial map: load … / wv … / wa … / any single-threaded hcimpl line>
 //! thread
 //! tx
@@ -25,6 +25,10 @@
 //! A schedule is the list of thread ids chosen at the decision points: one at the start, one at every yield point of
 //! the running thread (first read of a variable from shared memory, start of commit, non-transactional read, blocking
 //! retry), one whenever a thread finishes.  Switching away from a thread that could continue is a preemption.
+//! With `lockgran=1` `Transaction::commit` is not one step: there is a decision point before every lock acquisition of
+//! its walk and before its write-back phase, so a committing thread can be preempted while it HOLDS parking_lot locks;
+//! the locks are taken with try-lock loops (vendored crate), a failed try-lock makes the thread wait until some commit
+//! released its locks; "every unfinished thread waits for a lock or in a blocking retry" is reported as `deadlock`.
 //!
 //! stdout: one JSON line per distinct outcome (`status` ok|hang|deadlock|panic|replay-mismatch|hang-no-yield, commit
 //! order as [thread, transaction index] pairs, per-thread result lines as hcimpl prints them for `endtx`, `snap` and
@@ -193,6 +197,7 @@ type Body = Arc<dyn Fn(usize, usize) -> String + Send + Sync>;
 
 /// persistent worker threads (spawning per run costs more than the run itself)
 struct Job {
+    lockgran: bool,
     sh: Arc<Shared>,
     tid: usize,
     ntx: usize,
@@ -211,11 +216,13 @@ struct Slot {
 
 struct Pool {
     slots: Vec<Arc<Slot>>,
+    /// scenario parameter `lockgran=1`: the lock acquisitions inside `commit` are decision points
+    lockgran: bool,
 }
 
 impl Pool {
     fn new() -> Self {
-        Pool { slots: vec![] }
+        Pool { slots: vec![], lockgran: false }
     }
 
     fn ensure(&mut self, n: usize) {
@@ -236,8 +243,8 @@ impl Pool {
                             std::thread::sleep(std::time::Duration::from_micros(200));
                         }
                     }
-                    let Job { sh, tid, ntx, body } = slot.job.lock().unwrap().take().unwrap();
-                    verif::install(Arc::new(ThreadHook { sh: sh.clone(), tid }));
+                    let Job { sh, tid, ntx, body, lockgran } = slot.job.lock().unwrap().take().unwrap();
+                    verif::install(Arc::new(ThreadHook { sh: sh.clone(), tid, lockgran }));
                     // a kernel's `retry()` really blocks / restarts under the scheduler
                     attrs::REAL_RETRY.with(|f| f.set(true));
                     let r = catch_unwind(AssertUnwindSafe(|| {
@@ -269,9 +276,9 @@ impl Pool {
     fn run(&mut self, ntx: &[usize], body: Body, strategy: Strategy, max_steps: u64, trace: bool) -> Result<(Run, Vec<Vec<String>>, String), Vec<u8>> {
         let nt = ntx.len();
         self.ensure(nt);
-        let sh = Shared::new(Run::new(nt, max_steps, strategy, trace));
+        let sh = Shared::new(Run::new(nt, max_steps, strategy, trace, self.lockgran));
         for tid in 0..nt {
-            let job = Job { sh: sh.clone(), tid, ntx: ntx[tid], body: body.clone() };
+            let job = Job { sh: sh.clone(), tid, ntx: ntx[tid], body: body.clone(), lockgran: self.lockgran };
             *self.slots[tid].job.lock().unwrap() = Some(job);
             self.slots[tid].has.store(true, std::sync::atomic::Ordering::SeqCst);
         }
@@ -345,7 +352,8 @@ fn fingerprint(sess: &Sess) -> Option<String> {
 
 const FLAG_PRESERVING: &[&str] =
     &["link", "unlink", "sew", "unsew", "vid", "eid", "fid", "volid", "orbit", "beta", "isun", "rv", "wv", "xv", "ra", "wa", "xa",
-      "insv", "insvs", "fan", "fanconvex", "earclip", "setb", "setbs", "swap", "cutin", "cutout", "ranchor", "wanchort", "xanchort"];
+      "insv", "insvs", "fan", "fanconvex", "earclip", "setb", "setbs", "swap", "cutin", "cutout", "ranchor", "wanchort", "xanchort",
+      "flink", "funlink", "fsew", "funsew"];
 
 type SnapCache = std::collections::HashMap<String, (String, String)>;
 
@@ -604,6 +612,12 @@ struct Totals {
     atomic_reads: u64,
     first_reads: u64,
     max_steps: u64,
+    /// lock granularity: schedules with a preemption inside a commit, largest number of locks held by a preempted
+    /// committer, failed try-locks, lock acquisitions
+    runs_with_commit_preemption: u64,
+    max_locks_held_at_preemption: u32,
+    lock_waits: u64,
+    lock_acquires: u64,
 }
 
 type Key = (String, Vec<(u8, u16)>, Vec<Vec<String>>, String, String);
@@ -620,6 +634,12 @@ fn record(out: RunOut, mode: &str, outcomes: &mut BTreeMap<Key, Outcome>, tot: &
     tot.atomic_reads += out.run.atomic_reads;
     tot.first_reads += out.run.first_reads;
     tot.max_steps = tot.max_steps.max(out.run.steps);
+    if out.run.commit_preemptions > 0 {
+        tot.runs_with_commit_preemption += 1;
+    }
+    tot.max_locks_held_at_preemption = tot.max_locks_held_at_preemption.max(out.run.max_held_at_preemption);
+    tot.lock_waits += out.run.lock_waits;
+    tot.lock_acquires += out.run.lock_acquires;
     let key: Key = (out.status, out.commit_order, out.results, out.snap, out.wf);
     let e = outcomes.entry(key).or_insert_with(|| Outcome {
         count: 0,
@@ -632,7 +652,17 @@ fn record(out: RunOut, mode: &str, outcomes: &mut BTreeMap<Key, Outcome>, tot: &
 
 fn explore(pool: &mut Pool, sc: &Scenario) {
     let max_steps = sc.num("max_steps", 20000);
+    pool.lockgran = sc.num("lockgran", 0) != 0;
     let flags_fixed = sc.threads.iter().all(|t| t.iter().all(|tx| tx.iter().all(|op| FLAG_PRESERVING.contains(&op[0].as_str()))));
+    if pool.lockgran && !flags_fixed {
+        // commit() walks its variables in ADDRESS order: a map rebuilt for every schedule has other addresses, hence another
+        // lock order, and recorded prefixes could not be replayed
+        println!(
+            "{{\"scenario\":{},\"type\":\"error\",\"what\":\"lockgran=1 needs a scenario whose map can be reset between schedules (no op that removes darts)\"}}",
+            js(&sc.name)
+        );
+        return;
+    }
     let mut ctx = Ctx { persistent: flags_fixed, world: None, cache: if flags_fixed { Some(SnapCache::new()) } else { None } };
     let cache = &mut ctx;
     let mut outcomes: BTreeMap<Key, Outcome> = BTreeMap::new();
@@ -773,7 +803,7 @@ fn explore(pool: &mut Pool, sc: &Scenario) {
     }
     let modes: Vec<String> = tot.by_mode.iter().map(|(k, v)| format!("{}:{}", js(k), v)).collect();
     println!(
-        "{{\"scenario\":{},\"type\":\"summary\",\"threads\":{},\"transactions\":{},\"schedules\":{},\"by_mode\":{{{}}},\"bound_completed\":{},\"diverged_replays\":{},\"exhaustive\":{},\"truncated\":{},\"max_preemptions\":{},\"retries\":{},\"runs_with_retry\":{},\"stm_blocks\":{},\"atomic_reads\":{},\"first_reads\":{},\"max_steps\":{},\"distinct_outcomes\":{},\"distinct_commit_orders\":{}}}",
+        "{{\"scenario\":{},\"type\":\"summary\",\"threads\":{},\"transactions\":{},\"schedules\":{},\"by_mode\":{{{}}},\"bound_completed\":{},\"diverged_replays\":{},\"exhaustive\":{},\"truncated\":{},\"max_preemptions\":{},\"retries\":{},\"runs_with_retry\":{},\"stm_blocks\":{},\"atomic_reads\":{},\"first_reads\":{},\"max_steps\":{},\"lockgran\":{},\"runs_with_commit_preemption\":{},\"max_locks_held_at_preemption\":{},\"lock_waits\":{},\"lock_acquires\":{},\"distinct_outcomes\":{},\"distinct_commit_orders\":{}}}",
         js(&sc.name),
         sc.threads.len(),
         sc.threads.iter().map(|t| t.len()).sum::<usize>(),
@@ -790,6 +820,11 @@ fn explore(pool: &mut Pool, sc: &Scenario) {
         tot.atomic_reads,
         tot.first_reads,
         tot.max_steps,
+        pool.lockgran,
+        tot.runs_with_commit_preemption,
+        tot.max_locks_held_at_preemption,
+        tot.lock_waits,
+        tot.lock_acquires,
         outcomes.len(),
         orders.len()
     );
